@@ -704,7 +704,7 @@ Proof.
   destruct (kind_struct_ok k) as [Hsok _]. apply (set_field_written_gen E (wenc E) _ _ _ _ _ Hsok fs d v).
 Qed.
 
-(* every encoder / decoder pair the table condition admits is inverse up to the normal form *)
+(* every encoder / decoder pair the table condition accepts is inverse up to the normal form *)
 Lemma codec_pairs_kind rec t cw cr (ov : option fval) cur :
   pair_ok true t cw cr = true ->
   (forall v, ov = Some v -> shape_ok t v = true) ->
